@@ -93,6 +93,14 @@ def check(case):
                         obj.push()
                     if obj.elements_added != want:
                         return f"step {step} after {op}: {type(obj).__name__}.elements_added {obj.elements_added} != number of add calls {want}"
+                    if kind == "ondisk":
+                        # load/save: what a second reader of the file sees is the same counter
+                        if op == "special":
+                            obj.clear()
+                            want = 0
+                        seen = P.BloomFilter(filepath=path).elements_added
+                        if seen != obj.elements_added:
+                            return f"step {step} after {op}: the backing file records {seen} elements, the filter reports {obj.elements_added}"
                     if kind == "stats":
                         m, k, X, cnt = obj.number_bits, obj.number_hashes, obj._cnt_number_bits_set(), obj.elements_added
                         if X != sum(bin(b).count("1") for b in obj.bloom):
